@@ -291,7 +291,7 @@ func accountsRunAccounts(c accountsCase) []Step {
 	for _, g := range c.Groups {
 		ds = append(ds, fmt.Sprintf("group %s gid=%d members=%v", g.Name, g.GID, g.Members))
 	}
-	return []Step{{
+	steps := []Step{{
 		Line:    "acc.accounts\t" + pre + "\t" + res + "\t" + post + "\t" + strings.Join(accountsTokens(c), "\t"),
 		Go:      res + "#" + post,
 		Desc:    strings.Join(ds, "; ") + fmt.Sprintf("; run-as=%q => %s", c.RunAs, res),
@@ -299,4 +299,19 @@ func accountsRunAccounts(c accountsCase) []Step {
 		Mode:    "verdict",
 		Trivial: err != nil,
 	}}
+	// ta.user: userToUserEntry against its regenerated translation (the check on extract/trans.go)
+	for i, u := range c.Users {
+		if i >= 4 {
+			break
+		}
+		e := build.VerifUserToUserEntry(types.User{UserName: u.Name, UID: u.UID, GID: u.GID, Shell: u.Shell, HomeDir: u.Home})
+		g := "-"
+		if u.GID != nil {
+			g = fmt.Sprint(*u.GID)
+		}
+		out := strings.Join([]string{hx(e.UserName), hx(e.Password), fmt.Sprint(e.UID), fmt.Sprint(e.GID), hx(e.Info), hx(e.HomeDir), hx(e.Shell)}, "|")
+		steps = append(steps, Step{Line: strings.Join([]string{"ta.user", hx(u.Name), fmt.Sprint(u.UID), g, hx(u.Shell), hx(u.Home)}, "\t"), Go: out,
+			Desc: fmt.Sprintf("userToUserEntry(%s uid=%d gid=%s shell=%q home=%q)", u.Name, u.UID, g, u.Shell, u.Home), Tags: []string{"ta.user"}})
+	}
+	return steps
 }
